@@ -287,7 +287,7 @@ func (c12) runFile(ts *tape.Set, tier Tier) *Result {
 	// by the later, successful load. What stays required: a persistent fault
 	// ends in the load error (never EOF), and the bytes before it are a correct
 	// prefix no longer than the span start.
-	noSizes := spec.Writer == "odd-noblocksizes"
+	noSizes := spec.Writer == "odd-noblocksizes" || spec.Writer == "odd-partial-meta"
 	if noSizes {
 		res.probe("file-without-blocksizes")
 	}
@@ -1135,6 +1135,42 @@ func (c12) runDir(ts *tape.Set, tier Tier) *Result {
 				if len(hitsP()) == 0 && perr == nil {
 					// every shard is needed by a preload: the fault must have been met
 					fail("c12/preload/fault-not-met", "preload succeeded without requesting the unavailable shard")
+					break
+				}
+			}
+		}
+
+		// ---- Length() has no error result; its one way to say "could not
+		// count" is 0. Asked twice on ONE node while a shard is unavailable it
+		// must answer 0 or the true count both times - never the count of the
+		// part that could be loaded - and the true count once the store is back.
+		if p.kth < 0 && !p.cancelCtx {
+			n, hitsL, err := fresh()
+			if err == nil {
+				var l1, l2, l3 int64
+				panicked, site, pmsg := guard(func() {
+					l1 = n.Length()
+					l2 = n.Length()
+				})
+				firedL := len(hitsL()) > 0
+				if !panicked {
+					st.ReadPolicy = nil
+					panicked, site, pmsg = guard(func() { l3 = n.Length() })
+				}
+				res.Execs++
+				res.Events += len(st.Log)
+				res.probe("length-twice-under-fault")
+				full := int64(len(model.Entries))
+				okLen := func(l int64) bool { return l == full || (firedL && l == 0) }
+				switch {
+				case panicked:
+					fail("c12/length/panic@"+site, "Length() panicked: %s", pmsg)
+				case !okLen(l1) || !okLen(l2):
+					fail("c12/length/partial-count", "Length() on one node with a shard unavailable answered %d and then %d; the directory has %d entries (0 is the only way it has to say it could not count)", l1, l2, full)
+				case l3 != full:
+					fail("c12/length/stale-after-recovery", "the store recovered but Length() on the same node answers %d; the directory has %d entries", l3, full)
+				}
+				if res.Violation != nil {
 					break
 				}
 			}
